@@ -248,5 +248,13 @@ kf("C06", "C06-matrix-scalar-constructor", "matCxR<f32>(scalars...) and abstract
 kf("C06", "C06-extractBits-abstract-literal", "extractBits on a bare negative literal is folded without sign extension (the abstract literal is treated as unsigned)", _c06["fold-other"])
 kf("C06", "C06-compile-time-context-syntax", "`const_assert (a + b) == c;` (assertion starting with a parenthesis) and `array<u32, 1u | 2u>` (bit-or in a template argument) are rejected by the parser", _c06["syntax"])
 
+# ---------------------------------------------------------------- C14 (overrides); exact key lists in kf_c14_keys.json
+_c14 = json.load(open("kf_c14_keys.json"))
+kf("C14", "C14-derived-override-evaluation", "ir.ProcessOverrides evaluates override initialisers through float64 with only + - * / implemented: derived overrides using %, bit operators, shifts, comparisons, unary operators, conversions or select get a wrong value, lose integer wrap-around / truncation semantics, or are reported as having \"no value provided and no default initializer\"", _c14.get("derived", []))
+kf("C14", "C14-nested-use-corruption", "after ProcessOverrides a module that uses overrides inside nested control flow or global initialisers has corrupted expression handles: stores through non-pointers, conditions of integer type, expressions used before their Emit, loops that no longer terminate; the SPIR-V backend rejects the module and the text backends emit ill-formed code", _c14.get("nested", []))
+kf("C14", "C14-msl-pipeline-constants", "msl.Options.PipelineConstants: a missing value without default is accepted, absent/supplied values give wrong results, or compilation fails with \"invalid expression handle\"", _c14.get("mslpc", []))
+kf("C14", "C14-glsl-pipeline-constants", "glsl.Options.PipelineConstants: with an empty map overrides are left unresolved (\"unsupported expression kind: ir.ExprOverride\"); otherwise the same wrong values and ill-formed output as the ProcessOverrides route", _c14.get("glslpc", []))
+kf("C14", "C14-caller-module-modified", "override resolution on ir.CloneModuleForOverrides alters the caller's module (shallow clone of nested blocks; see C12-overrides-shallow-clone)", _c14.get("caller", []))
+
 json.dump(K, open("known_findings.json", "w"), indent=1)
 print(len(K), "entries")
